@@ -70,6 +70,7 @@ func cmdRun(args []string) int {
 	parseParams(*ps, e.params)
 	e.nworkers = *workers
 	e.traceCalls = *trace
+	e.traceInstr = os.Getenv("GOSMT_TRACE_INSTR") != ""
 	e.solverKind = *solver
 	e.maxPaths = *maxPaths
 	smtLogFile = *smtlog
@@ -124,6 +125,10 @@ func main() {
 	switch os.Args[1] {
 	case "run":
 		os.Exit(cmdRun(os.Args[2:]))
+	case "check":
+		os.Exit(cmdCheck(os.Args[2:]))
+	case "replay":
+		os.Exit(cmdReplay(os.Args[2:]))
 	default:
 		fmt.Fprintln(os.Stderr, "unknown command")
 		os.Exit(2)
